@@ -66,7 +66,8 @@ pub fn observe(w: &World) -> Obs {
 pub enum Act {
     Open { t: usize, v: usize, buy: bool, margin: u128, lev: u128, limit: u128, attach: u128, directed: bool },
     Close { t: usize, v: usize, limit: u128 },
-    Deposit { t: usize, v: usize, amount: u128 },
+    /// `attach`: coins sent along in a native deployment (normally = amount; sometimes more or less)
+    Deposit { t: usize, v: usize, amount: u128, attach: u128 },
     Withdraw { t: usize, v: usize, amount: u128 },
     Liquidate { who: String, v: usize, target: usize, limit: u128 },
     PayFunding { who: String, v: usize },
@@ -510,7 +511,13 @@ impl Interp {
                     4 => pre.bal[t].saturating_add(1),
                     _ => q / 50,
                 };
-                Act::Deposit { t, v, amount: a.max(1) }
+                let a = a.max(1);
+                let attach = match *amt % 7 {
+                    3 => a + 1 + jitter(*amt, d),
+                    5 if a > 1 => a - 1,
+                    _ => a,
+                };
+                Act::Deposit { t, v, amount: a, attach }
             }
             Op::Withdraw { t, v, amt } => {
                 let v = self.v_of(*v);
@@ -901,12 +908,12 @@ impl Interp {
                 },
                 0,
             ),
-            Act::Deposit { v, amount, .. } => (
+            Act::Deposit { v, amount, attach, .. } => (
                 eng::ExecuteMsg::DepositMargin {
                     vamm: vaddr(*v),
                     amount: u(*amount),
                 },
-                *amount,
+                *attach,
             ),
             Act::Withdraw { v, amount, .. } => (
                 eng::ExecuteMsg::WithdrawMargin {
@@ -987,7 +994,7 @@ pub fn act_json(act: &Act) -> Value {
             json!({"open": {"t": t, "v": v, "buy": buy, "margin": margin.to_string(), "lev": lev.to_string(), "limit": limit.to_string(), "attach": attach.to_string(), "directed": directed}})
         }
         Act::Close { t, v, limit } => json!({"close": {"t": t, "v": v, "limit": limit.to_string()}}),
-        Act::Deposit { t, v, amount } => json!({"deposit": {"t": t, "v": v, "amount": amount.to_string()}}),
+        Act::Deposit { t, v, amount, attach } => json!({"deposit": {"t": t, "v": v, "amount": amount.to_string(), "attach": attach.to_string()}}),
         Act::Withdraw { t, v, amount } => json!({"withdraw": {"t": t, "v": v, "amount": amount.to_string()}}),
         Act::Liquidate { who, v, target, limit } => json!({"liquidate": {"who": who, "v": v, "target": target, "limit": limit.to_string()}}),
         Act::PayFunding { who, v } => json!({"pay_funding": {"who": who, "v": v}}),
